@@ -24,7 +24,13 @@ type Case struct {
 }
 
 func halfGrid(lim int) *rapid.Generator[float64] {
-	return rapid.Map(rapid.IntRange(-lim, lim), func(k int) float64 { return float64(k) / 2 })
+	// k/2 for |k| <= lim; zero comes with either sign (negative zero is a small integer like any other)
+	return rapid.Map(rapid.IntRange(-lim, lim+1), func(k int) float64 {
+		if k == lim+1 {
+			return math.Copysign(0, -1)
+		}
+		return float64(k) / 2
+	})
 }
 
 func genRing(t *rapid.T, c *rapid.Generator[float64], maxN int) []vkit.P2 {
@@ -65,7 +71,12 @@ func gen(t *rapid.T) Case {
 		}
 		c.Polys = genPolys(t, hg, maxN)
 		if rapid.Bool().Draw(t, "quarter") {
-			q := rapid.Map(rapid.IntRange(-2*lim-1, 2*lim+1), func(k int) float64 { return float64(k) / 4 })
+			q := rapid.Map(rapid.IntRange(-2*lim-1, 2*lim+2), func(k int) float64 {
+				if k == 2*lim+2 {
+					return math.Copysign(0, -1)
+				}
+				return float64(k) / 4
+			})
 			c.Pt = vkit.MkP(q.Draw(t, "px"), q.Draw(t, "py"))
 		} else {
 			c.Pt = vkit.MkP(hg.Draw(t, "px"), hg.Draw(t, "py"))
@@ -274,7 +285,7 @@ func TestProp(t *testing.T) {
 	vkit.Main(t, vkit.Spec[Case]{
 		ID: "C02",
 		Rule: "rapid: polygons/multi-polygons/boxes of 1-2 members x 1-3 rings x 0-7 (a few per cent: up to 300-900) arbitrary vertices (self-intersecting, repeated, " +
-			"unclosed, degenerate allowed) on the half-integer grid |k/2|<=1,2,4 with query points on the half and quarter grid, checked against an " +
+			"unclosed, degenerate allowed) on the half-integer grid |k/2|<=1,2,4 (zero with either sign) with query points on the half and quarter grid, checked against an " +
 			"exact cross-product oracle; float polygons with points kept only when farther than 1e-6*extent+1e-16*magnitude from every edge; MultiPoint/LineString/" +
 			"MultiLineString/Polygon receivers; plus exhaustive enumeration of all 3-vertex (quick) and 4-vertex (thorough) rings over a 4x4 integer " +
 			"grid x the 7x7 half-step point grid. Non-trivial = query point on an edge/vertex, or sharing an x or y ordinate with a ring vertex " +
